@@ -393,10 +393,22 @@ def check_property(pid, tier, seed):
             if os.path.exists(corpus):
                 runs.append((st, corpus, st["name"] + "-corpus"))
             runs.append((st, None, st["name"]))
+        runs = [x for x in runs if not (x[0].get("kmodel") and not os.path.exists(KMODEL))]
+        # the pure codec / format differential streams do not depend on timing: run up to VERIF_STREAM_PAR of them at
+        # once; everything with watchdogs, schedules, child processes or the real binary runs alone, in order
+        par_safe = {"trsmall", "rlt", "srt", "alias", "lz", "lzp", "fsd", "utf", "bwt", "bwts", "exe", "rolz", "text", "entsmall", "range",
+                    "ans1", "huffman", "cmpred", "tpaqpred", "binent", "fpaq", "norm", "names", "hash", "jobs", "image", "imagegen",
+                    "imagegen2", "ibs", "obs"}
+        results = {}
+        import concurrent.futures
+        batch = [x for x in runs if x[0]["name"] in par_safe]
+        if batch:
+            with concurrent.futures.ThreadPoolExecutor(max_workers=max(1, int(os.environ.get("VERIF_STREAM_PAR", "3")))) as ex:
+                futs = {ex.submit(run_stream, pid, st, tier, seed, opsin, label): label for st, opsin, label in batch}
+                for f in concurrent.futures.as_completed(futs):
+                    results[futs[f]] = f.result()
         for st, opsin, label in runs:
-            if st.get("kmodel") and not os.path.exists(KMODEL):
-                continue
-            r = run_stream(pid, st, tier, seed, opsin=opsin, label=label)
+            r = results.get(label) or run_stream(pid, st, tier, seed, opsin=opsin, label=label)
             srep = {k: r.get(k) for k in ("stream", "rc", "wall_s", "model_wall_s", "compared", "ndiffs", "error")}
             if r["stats"]:
                 s = r["stats"]
